@@ -696,6 +696,8 @@ class BufferByteArray(XBuffer):
         value = nplike_to_numpy(value)
         if dest_dtype != value.dtype:
             value = value.astype(dtype=dest_dtype)
+        if value.ndim == 0:  # a 0-d memoryview cannot be sliced
+            value = value.reshape(1)
         self.update_from_native(offset, value.data, 0, value.nbytes)
 
     def to_bytearray(self, offset, nbytes):
